@@ -217,7 +217,9 @@ pub fn skip_written<P: Proto, const SHAPE: u8>() {
         out.put_slice(&rest[..]);
         core::mem::forget(rest);
     }
-    let written = out.len() - hdr_len;
+    // a bool FIELD: compact folds the value into the header (0 value bytes); the binary family
+    // writes one value byte, which the first writer above already emitted together with the header
+    let written = if SHAPE == V_BOOL { if P::WIRE == Wire::Compact { 0 } else { 1 } } else { out.len() - hdr_len };
     let tail: [u8; 2] = kani::any();
     out.put_slice(&tail);
     let mut b = out.freeze();
